@@ -114,6 +114,9 @@ func freeRunV2(t *testing.T, cfg Config, rnd *rand.Rand, calls map[string]contra
 	if err != nil {
 		t.Fatalf("New(%+v): %v", cfg, err)
 	}
+	for p := range inputs { // the options map belongs to the caller again once New has returned: reuse it
+		delete(inputs, p)
+	}
 	var wg sync.WaitGroup
 	for _, p := range cfg.Prios {
 		wg.Add(1)
